@@ -220,7 +220,7 @@ META = {
     'rule': 'histories of k free steps over requests of every kind, acknowledgements with symbolic identifiers, symbolic time, disconnect(), loss + rebuilt protocol '
             '+ connect(clean symbolic) (+ publish before CONNACK) + CONNACK; after EVERY step a census of reactor.getDelayedCalls() against the number of packets '
             'awaiting acknowledgement computed from the wire and receive logs; then 100 s, 10000 s, final loss, 1001 s',
-    'bounds': {'quick': 'k=4 with at most 3 requests (QoS 1..2; variants with QoS 0..2 and with the identifier counter placed at 65533..65535); 3 profiles; clean and persistent first session', 'thorough': 'k=5 with at most 3 requests'},
+    'bounds': {'quick': 'k=4 with at most 3 requests (QoS 1..2; variants with QoS 0..2 and with the identifier counter placed at 65533..65535); 3 profiles; clean and persistent first session', 'thorough': 'k=5 with at most 3 requests (pubsubs), k=4 variants'},
     'stubs': ['fake transport with asynchronous loss', 'twisted task.Clock', 'jitter: fixed sequence',
               'the onDisconnection notification is recognised as the handler the harness installed (target of the delayed call)'],
     'outside': ['keepalive > 0 (its timers are the subject of C15)', 'timers between abortConnection() and the loss report'],
